@@ -5,7 +5,7 @@
   `secure()`), `matchId` / `peerIdOf` (match_id over the type-filtered subjectAltName values),
   `authDecision` / `sessDecision` (merge_session_params) and `outcome` (what is written on the plain
   and on the TLS socket, state, close, escaped exception, reported authn fields). The TLS handshake,
-  certificate chain validation and the existence of `ssl.match_hostname` are parameters.
+  certificate chain validation and `ipaddress` parsing of the peer address are parameters.
 
   Specification: `C15spec` below – written from the property text and RFC 9174 §4.3 ("Enable TLS":
   AND of the two CAN_TLS flags, then local policy) and §4.4.3/§4.4.4 (per kind of identity claim:
@@ -13,19 +13,13 @@
   the session with reason Contact Failure) – over *sets of presented identifiers*, not over the
   model's three-valued results.
 
-  `Quirks.current` is the code as it is now. Five of its behaviours contradict the property (or
-  leave the endpoint undecided); for each the full-strength statement is a `def` over a quirk set
-  (`HostAuthnEnforced`, `Decides`, `InitUnderTls`, `ContactDecides`), proved for the repaired logic
-  (`…_repaired`), proved for `Quirks.current` outside an explicit decidable region (`…_partial`) and
-  refuted inside it (`…_counterexample`, witnesses replayed on the implementation by the check):
-    D27  `ssl.match_hostname` missing (Python ≥ 3.12) ⇒ AttributeError, no decision
-    D13  DNS-ID that nobody could check satisfies require_host_authn
-    —    peer presents no certificate ⇒ TypeError, no decision
-    —    SESS_INIT received in the clear before the handshake is accepted as if protected
-    —    OSError in the handshake ⇒ endpoint neither closes nor proceeds
-  (a sixth quirk, messages handled after `close()`, only adds an escaping exception).
-  `C15_policy` is the whole property against `C15spec.Policy` for an arbitrary quirk set, with one
-  hypothesis per quirk; `C15_policy_partial` / `C15_policy_repaired` are its two instances.
+  `Quirks.current` is the code as it is now; every theorem below is at full strength for it. Six
+  former defects (D27 `ssl.match_hostname` missing; D13 uncompared DNS-ID counted as host
+  authentication; peer without certificate; SESS_INIT received in the clear carried across the
+  handshake; non-SSL `OSError` in the handshake; messages handled after `close()`) have been repaired
+  in /repo. They stay expressible through the switches of `Quirks`; the former witnesses are kept as
+  `example`s (now computing the correct outcome, and the old outcome under the old switch), and the
+  check replays them on the implementation on every run.
   All certificates: the SAN list is an arbitrary `List GName` (lemmas by induction on it).
 -/
 import DtnVerif.Model.TlsPolicy
@@ -404,7 +398,7 @@ theorem C15_clear_reports_no_authn (q : Quirks) (c : Cfg) (e : Env) (p : PeerId)
 
 /-! ## Peer authentication (all certificates) -/
 
-/-- The region in which the present code does not enforce `require_host_authn` (D13): host
+/-- The region in which the code before b2a96b5 did not enforce `require_host_authn` (D13): host
     authentication required, no DNS name of the peer known (listening side, or a literal address was
     dialled), and the certificate presents DNS-IDs but no IPADDR-ID. -/
 def d13Region (c : Cfg) (n : Conn) : Bool :=
@@ -546,7 +540,8 @@ private theorem established_tls (q : Quirks) (c : Cfg) (e : Env) (n : Conn)
 
 /-- **Under TLS the session is established only if no identifier presented in the peer certificate
     contradicts the peer's address, DNS name or announced node ID** – every configuration, every
-    certificate (arbitrary SAN list), both sides, for the present code and any repair of it. -/
+    certificate (arbitrary SAN list), both sides (stated for any setting of the former quirk switches,
+    `Quirks.current` included). -/
 theorem C15_no_contradiction (q : Quirks) (c : Cfg) (e : Env) (n : Conn) (hname : n.peerName ≠ "")
     (hst : (outcomeC q c e n).state = .established) (hsec : (outcomeC q c e n).isSecure = true) :
     ¬ (situation c e n).Contradicted := by
@@ -570,7 +565,7 @@ theorem C15_no_contradiction (q : Quirks) (c : Cfg) (e : Env) (n : Conn) (hname 
   · exact hnode (hnoX.mpr hc)
 
 /-- **When node authentication is required, established only if the node ID is present in the
-    certificate and matches** – every certificate, present code and any repair. -/
+    certificate and matches** – every certificate (any setting of the former quirk switches). -/
 theorem C15_required_node_present_and_matches (q : Quirks) (c : Cfg) (e : Env) (n : Conn)
     (hst : (outcomeC q c e n).state = .established) (hsec : (outcomeC q c e n).isSecure = true)
     (hreq : c.requireNode = true) :
@@ -579,55 +574,43 @@ theorem C15_required_node_present_and_matches (q : Quirks) (c : Cfg) (e : Env) (
   rw [authDecision_establish_iff] at hA
   exact (C15_abstraction_node c n).2.1.mp (hA.2.2.2.2 hreq)
 
-/-- Full-strength statement for host authentication. -/
+/-- Statement for host authentication, for a quirk set. -/
 def HostAuthnEnforced (q : Quirks) : Prop :=
   ∀ (c : Cfg) (e : Env) (n : Conn), n.peerName ≠ "" →
     (outcomeC q c e n).state = .established → (outcomeC q c e n).isSecure = true →
     c.requireHost = true → (situation c e n).HostAuthenticated
 
-/-- **When host authentication is required, established only if the peer's address or DNS name is
-    present in the certificate and matches** – the present code, every certificate *outside the D13
-    region* (`d13Region`: no DNS name known, certificate with DNS-IDs and no IPADDR-ID). -/
-theorem C15_required_host_present_and_matches_partial (c : Cfg) (e : Env) (n : Conn) (hname : n.peerName ≠ "")
-    (hD13 : d13Region c n = false)
-    (hst : (outcomeC Quirks.current c e n).state = .established)
-    (hsec : (outcomeC Quirks.current c e n).isSecure = true) (hreq : c.requireHost = true) :
-    (situation c e n).HostAuthenticated := by
-  have hA := (established_tls Quirks.current c e n hst hsec).1
-  exact ((auth_iff Quirks.current c e n hname (fun _ => hD13)).mp hA).2.1 hreq
-
-/-- … and with the DNS-ID repair (an unverifiable DNS-ID is no authentication) it holds everywhere. -/
-theorem C15_required_host_present_and_matches_repaired (q : Quirks) (hq : q.uncheckedDnsCounts = false) :
-    HostAuthnEnforced q := by
+/-- **When host authentication is required, established only if the peer's address, or the DNS name
+    it was reached by, is present in the certificate and matches** – every configuration, both sides,
+    every certificate. (A DNS-ID that could not be compared – listening side, literal address
+    dialled – authenticates nothing.) -/
+theorem C15_required_host_present_and_matches : HostAuthnEnforced Quirks.current := by
   intro c e n hname hst hsec hreq
-  have hA := (established_tls q c e n hst hsec).1
-  exact ((auth_iff q c e n hname (fun h => by rw [hq] at h; cases h)).mp hA).2.1 hreq
+  have hA := (established_tls Quirks.current c e n hst hsec).1
+  exact ((auth_iff Quirks.current c e n hname (fun h => by cases h)).mp hA).2.1 hreq
 
-/-- D13 witness: listening side, `require_tls`, `require_host_authn`, peer 192.0.2.1 presenting a
-    certificate whose only identifier is the DNS name of somebody else. -/
+/-- Both authentication sentences at once: **under TLS the session is established only if the
+    specification accepts the peer** (nothing contradicts, what is required is present and matches). -/
+theorem C15_established_only_if_acceptable : AuthSound Quirks.current := by
+  intro c e n hname hst hsec
+  exact (auth_iff Quirks.current c e n hname (fun h => by cases h)).mp (established_tls Quirks.current c e n hst hsec).1
+
+/-- Former D13 witness: listening side, `require_tls`, `require_host_authn`, peer 192.0.2.1 presenting
+    a certificate whose only identifier is the DNS name of somebody else. -/
 def d13Cfg : Cfg := ⟨true, true, some true, true, false⟩
 def d13Env : Env := ⟨1, .ok, false, true⟩
 def d13Conn : Conn := ⟨"192.0.2.1", "192.0.2.1", [192, 0, 2, 1], "dtn://peer/", some ⟨some [.dns "evil.example.net"]⟩⟩
 
-/-- **D13.** The present code does not enforce host authentication: the witness is established under
-    TLS with `require_host_authn` although nothing of the host is authenticated (and
-    `get_session_parameters()` reports `authn_dnsid = False`). -/
-theorem C15_required_host_counterexample : ¬ HostAuthnEnforced Quirks.current := by
-  intro h
-  have h1 : (outcomeC Quirks.current d13Cfg d13Env d13Conn).state = .established := by decide
-  have h2 : (outcomeC Quirks.current d13Cfg d13Env d13Conn).isSecure = true := by decide
-  have := h d13Cfg d13Env d13Conn (by decide) h1 h2 rfl
-  rcases this with hip | ⟨nm, hnm, _⟩
-  · revert hip; decide
-  · rw [dnsName_eq] at hnm
-    have hnone : peerDnsid d13Cfg d13Conn = none := by decide
-    rw [hnone] at hnm
-    cases hnm
-
-example : d13Region d13Cfg d13Conn = true := by decide
-example : (outcomeC Quirks.current d13Cfg d13Env d13Conn).params = some ⟨false, .absent, .mismatch, .absent⟩ := by decide
-/-- the same witness is turned away once the DNS-ID quirk is repaired -/
-example : (outcomeC Quirks.repaired d13Cfg d13Env d13Conn).secured = [.sessInit, .sessTerm 4] := by decide
+/-- now turned away with contact failure … -/
+example : (outcomeC Quirks.current d13Cfg d13Env d13Conn).secured = [.sessInit, .sessTerm 4] ∧
+    (outcomeC Quirks.current d13Cfg d13Env d13Conn).state = .ending := by decide
+/-- … whereas the old logic established it with nothing authenticated (regression instance) -/
+example : (outcomeC { Quirks.current with uncheckedDnsCounts := true } d13Cfg d13Env d13Conn).params
+    = some ⟨false, .absent, .mismatch, .absent⟩ ∧ d13Region d13Cfg d13Conn = true := by decide
+/-- hypotheses met non-trivially: the same listener accepts a certificate carrying the peer address -/
+example : (outcomeC Quirks.current d13Cfg d13Env
+      { d13Conn with cert := some ⟨some [.dns "evil.example.net", .ip [192, 0, 2, 1]]⟩ }).state = .established := by
+  decide
 
 /-! ## "Otherwise the endpoint terminates with contact-failure" -/
 
@@ -653,7 +636,7 @@ private theorem sess_tls_notDelivered (q : Quirks) (c : Cfg) (e : Env) (p : Peer
   simp [sessDecision, hp, hq]
 
 /-- Under TLS, once the peer's SESS_INIT has been looked at, the endpoint either establishes or sends
-    SESS_TERM(contact failure): it decides. -/
+    SESS_TERM(contact failure): it decides (statement for a quirk set). -/
 def Decides (q : Quirks) : Prop :=
   ∀ (c : Cfg) (e : Env) (n : Conn),
     (outcomeC q c e n).isSecure = true → (outcomeC q c e n).sess.delivered = true →
@@ -699,67 +682,47 @@ private theorem decides_of (q : Quirks) (c : Cfg) (e : Env) (n : Conn)
       cases pas <;> simp [render, termReasonsOf, Contact.isTls, Contact.proceeds, Contact.closedBeforeFlush,
         Sess.delivered, Sess.termOut, reasonContactFailure, contactFailure]
 
-/-- **Otherwise the endpoint terminates with contact-failure** – the present code, every certificate,
-    *provided* the interpreter has `ssl.match_hostname` (D27) and the peer presented a certificate. -/
-theorem C15_decides_partial (c : Cfg) (e : Env) (n : Conn)
-    (hnat : e.nativeMatch = true) (hcert : n.cert ≠ none)
-    (hsec : (outcomeC Quirks.current c e n).isSecure = true)
-    (hdel : (outcomeC Quirks.current c e n).sess.delivered = true) :
-    (outcomeC Quirks.current c e n).state = .established ∨
-    ((outcomeC Quirks.current c e n).state = .ending ∧
-      Msg.sessTerm contactFailure ∈ (outcomeC Quirks.current c e n).secured) := by
-  rcases decides_of Quirks.current c e n (fun _ => hnat) (fun _ => hcert) hsec hdel with h | h
-  · exact Or.inl h.1
-  · exact Or.inr ⟨h.1, h.2.1⟩
-
-theorem C15_decides_repaired (q : Quirks) (h1 : q.callsNative = false) (h2 : q.noCertRaises = false) :
-    Decides q := by
+/-- **Otherwise the endpoint terminates with contact-failure**: under TLS, once the peer's SESS_INIT
+    has been taken out of the receive buffer, the endpoint either establishes the session or sends
+    SESS_TERM(contact failure) and is `ending` – every configuration, every certificate, also for a
+    peer that presented no certificate at all. -/
+theorem C15_decides : Decides Quirks.current := by
   intro c e n hsec hdel
-  rcases decides_of q c e n (fun h => by rw [h1] at h; cases h) (fun h => by rw [h2] at h; cases h) hsec hdel with h | h
+  rcases decides_of Quirks.current c e n (fun h => by cases h) (fun h => by cases h) hsec hdel with h | h
   · exact Or.inl h.1
   · exact Or.inr ⟨h.1, h.2.1⟩
 
-/-- D27 witness: connecting side, everything required, a certificate in which the address, the DNS
-    name and the node ID all match – on an interpreter without `ssl.match_hostname`. -/
+/-- Former D27 witness: connecting side, everything required, a certificate in which the address, the
+    DNS name and the node ID all match – on an interpreter without `ssl.match_hostname`. -/
 def d27Cfg : Cfg := ⟨false, true, some true, true, true⟩
 def d27Env : Env := ⟨1, .ok, false, false⟩
 def d27Conn : Conn := ⟨"peer.example.org", "192.0.2.1", [192, 0, 2, 1], "dtn://peer/",
   some ⟨some [.ip [192, 0, 2, 1], .dns "peer.example.org", .uri "dtn://peer/"]⟩⟩
 
-/-- **D27.** Without `ssl.match_hostname` no TLS session is ever decided: `AttributeError` leaves the
-    receive callback, the state stays `session-negotiating`, no SESS_TERM is sent. -/
-theorem C15_decides_counterexample_D27 : ¬ Decides Quirks.current := by
-  intro h
-  have := h d27Cfg d27Env d27Conn (by decide) (by decide)
-  revert this
+/-- now established with all three identifiers authenticated, whatever the interpreter … -/
+example : (outcomeC Quirks.current d27Cfg d27Env d27Conn).params = some ⟨true, .matched, .matched, .matched⟩ ∧
+    (outcomeC Quirks.current d27Cfg d27Env d27Conn).escaped = [] := by decide
+/-- … whereas the old code died with `AttributeError` (regression instance) -/
+example : (outcomeC { Quirks.current with callsNative := true } d27Cfg d27Env d27Conn).escaped = [.attributeError] := by
   decide
-
-example : (outcomeC Quirks.current d27Cfg d27Env d27Conn).escaped = [.attributeError] := by decide
-/-- the same peer on an interpreter that has the function: established, all three authenticated -/
-example : (outcomeC Quirks.current d27Cfg { d27Env with nativeMatch := true } d27Conn).params
-    = some ⟨true, .matched, .matched, .matched⟩ := by decide
-
-
 /-- hypotheses of `C15_no_contradiction`, `C15_required_node_present_and_matches`,
-    `C15_required_host_present_and_matches_partial` and `C15_init_under_tls_partial` are met by the
-    D27 peer on an interpreter that has the function (established under TLS, outside the D13 region) -/
-example : (outcomeC Quirks.current d27Cfg { d27Env with nativeMatch := true } d27Conn).state = .established ∧
-    (outcomeC Quirks.current d27Cfg { d27Env with nativeMatch := true } d27Conn).isSecure = true ∧
-    d13Region d27Cfg d27Conn = false ∧ d27Conn.peerName ≠ "" ∧ d27Cfg.requireNode = true := by decide
-/-- hypotheses of `C15_decides_partial` with the terminating branch: a certificate for another address -/
-example : (outcomeC Quirks.current d27Cfg { d27Env with nativeMatch := true }
+    `C15_required_host_present_and_matches`, `C15_init_under_tls` are met by this peer -/
+example : (outcomeC Quirks.current d27Cfg d27Env d27Conn).state = .established ∧
+    (outcomeC Quirks.current d27Cfg d27Env d27Conn).isSecure = true ∧
+    d27Conn.peerName ≠ "" ∧ d27Cfg.requireNode = true ∧ d27Cfg.requireHost = true := by decide
+/-- the terminating branch of `C15_decides`: a certificate for another address -/
+example : (outcomeC Quirks.current d27Cfg d27Env
       { d27Conn with cert := some ⟨some [.ip [192, 0, 2, 99], .dns "peer.example.org", .uri "dtn://peer/"]⟩ }).secured
     = [.sessInit, .sessTerm 4] := by decide
-
-/-- Peer without a certificate (`CERT_OPTIONAL`): `TypeError` instead of a decision. -/
-theorem C15_decides_counterexample_no_certificate :
-    ∃ c e n, e.nativeMatch = true ∧ (outcomeC Quirks.current c e n).isSecure = true ∧
-      (outcomeC Quirks.current c e n).sess.delivered = true ∧
-      (outcomeC Quirks.current c e n).escaped = [.typeError] ∧
-      (outcomeC Quirks.current c e n).state = .sessionNegotiating ∧
-      (outcomeC Quirks.current c e n).secured = [.sessInit] :=
-  ⟨⟨true, true, none, false, false⟩, ⟨1, .ok, false, true⟩,
-   ⟨"192.0.2.1", "192.0.2.1", [192, 0, 2, 1], "dtn://peer/", none⟩, by decide⟩
+/-- peer without a certificate (`CERT_OPTIONAL`): every identifier absent – established when nothing is
+    required, contact failure when something is; formerly `TypeError` (regression instance) -/
+example :
+    (outcomeC Quirks.current ⟨true, true, none, false, false⟩ ⟨1, .ok, false, false⟩
+      ⟨"192.0.2.1", "192.0.2.1", [192, 0, 2, 1], "dtn://peer/", none⟩).state = .established ∧
+    (outcomeC Quirks.current ⟨true, true, none, false, true⟩ ⟨1, .ok, false, false⟩
+      ⟨"192.0.2.1", "192.0.2.1", [192, 0, 2, 1], "dtn://peer/", none⟩).secured = [.sessInit, .sessTerm 4] ∧
+    (outcomeC { Quirks.current with noCertRaises := true } ⟨true, true, none, false, false⟩ ⟨1, .ok, false, false⟩
+      ⟨"192.0.2.1", "192.0.2.1", [192, 0, 2, 1], "dtn://peer/", none⟩).escaped = [.typeError] := by decide
 
 /-! ## The SESS_INIT itself must have arrived under TLS -/
 
@@ -783,108 +746,79 @@ private theorem initUnderTls_of (q : Quirks) (c : Cfg) (e : Env) (n : Conn)
   rw [outcome_eq]
   simp [render, this]
 
-/-- Established TLS sessions rest on a SESS_INIT received under TLS – the present code, as long as
-    the peer's SESS_INIT does not share a read with its contact header. -/
-theorem C15_init_under_tls_partial (c : Cfg) (e : Env) (n : Conn) (hpl : e.pipelined = false)
-    (hst : (outcomeC Quirks.current c e n).state = .established)
-    (hsec : (outcomeC Quirks.current c e n).isSecure = true) :
-    (outcomeC Quirks.current c e n).initFromPlaintext = false :=
-  initUnderTls_of Quirks.current c e n (fun _ => hpl) hst hsec
-
-theorem C15_init_under_tls_repaired (q : Quirks) (hq : q.carriesPlaintext = false) : InitUnderTls q := by
+/-- **An established TLS session rests on a SESS_INIT that arrived under TLS**: octets received in the
+    clear ahead of the handshake (same read as the contact header) are never acted upon. -/
+theorem C15_init_under_tls : InitUnderTls Quirks.current := by
   intro c e n hst hsec
-  exact initUnderTls_of q c e n (fun h => by rw [hq] at h; cases h) hst hsec
+  exact initUnderTls_of Quirks.current c e n (fun h => by cases h) hst hsec
 
-/-- Plaintext-injection witness: listening side with `require_tls`; contact header and SESS_INIT in
-    one read, then a successful handshake with a peer whose certificate carries the right address:
-    the session is established on the SESS_INIT that was received in the clear. -/
-theorem C15_init_under_tls_counterexample : ¬ InitUnderTls Quirks.current := by
-  intro h
-  have := h ⟨true, true, some true, false, false⟩ ⟨1, .ok, true, true⟩
-    ⟨"192.0.2.1", "192.0.2.1", [192, 0, 2, 1], "dtn://peer/", some ⟨some [.ip [192, 0, 2, 1]]⟩⟩
-    (by decide) (by decide)
-  revert this
-  decide
+/-- Former plaintext-injection witness: listening side with `require_tls`; contact header and SESS_INIT
+    in one read, then a successful handshake. Now the early SESS_INIT is discarded (nothing is sent,
+    the endpoint waits for one under TLS); formerly the session was established on it. -/
+example :
+    (outcomeC Quirks.current ⟨true, true, some true, false, false⟩ ⟨1, .ok, true, false⟩
+      ⟨"192.0.2.1", "192.0.2.1", [192, 0, 2, 1], "dtn://peer/", some ⟨some [.ip [192, 0, 2, 1]]⟩⟩).state
+      = .sessionNegotiating ∧
+    (outcomeC Quirks.current ⟨true, true, some true, false, false⟩ ⟨1, .ok, true, false⟩
+      ⟨"192.0.2.1", "192.0.2.1", [192, 0, 2, 1], "dtn://peer/", some ⟨some [.ip [192, 0, 2, 1]]⟩⟩).secured = [] ∧
+    (outcomeC { Quirks.current with carriesPlaintext := true } ⟨true, true, some true, false, false⟩ ⟨1, .ok, true, false⟩
+      ⟨"192.0.2.1", "192.0.2.1", [192, 0, 2, 1], "dtn://peer/", some ⟨some [.ip [192, 0, 2, 1]]⟩⟩).initFromPlaintext
+      = true := by decide
 
 /-! ## The contact stage decides; no exception leaves the receive callback -/
 
 def ContactDecides (q : Quirks) : Prop :=
   ∀ (c : Cfg) (e : Env) (p : PeerId), (outcome q c e p).contact ≠ .wedged
 
-/-- The contact stage ends in proceed-clear, proceed-TLS or close – the present code, unless the
-    handshake raises an `OSError` that is not an `ssl.SSLError`. -/
-theorem C15_contact_decides_partial (c : Cfg) (e : Env) (p : PeerId) (hs : e.handshake ≠ .osError) :
-    (outcome Quirks.current c e p).contact ≠ .wedged := by
-  rw [outcome_eq]
-  intro h
-  have h' : ctOf Quirks.current c e = .wedged := h
-  exact hs ((contactDecision_wedged_iff _ _ _ _ _).mp h').2.2.1
-
-theorem C15_contact_decides_repaired (q : Quirks) (hq : q.handshakeOsEscapes = false) : ContactDecides q := by
+/-- **The contact stage decides**: it ends in proceed-clear, proceed-TLS or close, for every handshake
+    result (also an `OSError` that is not an `ssl.SSLError`). -/
+theorem C15_contact_decides : ContactDecides Quirks.current := by
   intro c e p h
   rw [outcome_eq] at h
-  have h' : ctOf q c e = .wedged := h
+  have h' : ctOf Quirks.current c e = .wedged := h
   have := ((contactDecision_wedged_iff _ _ _ _ _).mp h').2.2.2.1
-  rw [hq] at this
   cases this
 
-/-- Connection reset during the handshake: the exception leaves `recv_message`; the endpoint is
-    neither closed nor reading any more. -/
-theorem C15_contact_decides_counterexample : ¬ ContactDecides Quirks.current := by
-  intro h
-  exact h ⟨false, true, none, false, false⟩ ⟨1, .osError, false, true⟩ ⟨true, false, .matched, .absent, .absent⟩
-    (by decide)
+/-- Former witness: connection reset during the handshake – now closed; formerly the exception left
+    `recv_message` and the endpoint was neither closed nor reading. -/
+example :
+    (outcome Quirks.current ⟨false, true, none, false, false⟩ ⟨1, .osError, false, false⟩
+      ⟨true, false, .matched, .absent, .absent⟩).contact = .close true ∧
+    (outcome { Quirks.current with handshakeOsEscapes := true } ⟨false, true, none, false, false⟩
+      ⟨1, .osError, false, false⟩ ⟨true, false, .matched, .absent, .absent⟩).escaped = [.osError] := by decide
 
-/-- No exception leaves the receive callback – the present code, outside the four regions named by
-    the hypotheses. -/
-theorem C15_no_escape_partial (c : Cfg) (e : Env) (n : Conn)
-    (hs : e.handshake ≠ .osError) (hnat : e.nativeMatch = true) (hcert : n.cert ≠ none)
-    (hpl : e.pipelined = false) :
+/-- **No exception leaves the receive callback** during contact and session negotiation – every
+    configuration, flags octet, handshake result, certificate (or none), pipelined or not. -/
+theorem C15_no_escape (c : Cfg) (e : Env) (n : Conn) :
     (outcomeC Quirks.current c e n).escaped = [] := by
   unfold outcomeC
   rw [outcome_eq]
   generalize hct : ctOf Quirks.current c e = ct
   cases ct with
-  | wedged => exact absurd ((contactDecision_wedged_iff _ _ _ _ _).mp hct).2.2.1 hs
-  | proceedClear => simp [render, sessDecision, Contact.escapes, Sess.escapes]
-  | close a => simp [render, sessDecision, hpl, Contact.escapes, Sess.escapes]
-  | proceedTls =>
-    obtain ⟨hE, hT⟩ := sessDecision_tls Quirks.current c e (peerIdOf c n) (fun _ => rfl) (fun _ => hnat)
-      (sess_hc Quirks.current c n (fun _ => hcert))
-    rcases authDecision_cases Quirks.current.uncheckedDnsCounts (peerIdOf c n).ip (peerIdOf c n).dns
-        (peerIdOf c n).node (peerIdOf c n).dnsKnown c.requireHost c.requireNode with ha | ha
-    · rw [hE ha]; simp [render, Contact.escapes, Sess.escapes]
-    · rw [hT ha]; simp [render, Contact.escapes, Sess.escapes]
-
-
-/-- `C15_contact_decides_partial` / `C15_no_escape_partial` on a failed handshake: closed, nothing escapes -/
-example : (outcomeC Quirks.current d27Cfg { d27Env with handshake := .sslError, nativeMatch := true } d27Conn).contact
-      = .close true ∧
-    (outcomeC Quirks.current d27Cfg { d27Env with handshake := .sslError, nativeMatch := true } d27Conn).escaped = [] := by
-  decide
-
-theorem C15_no_escape_repaired (c : Cfg) (e : Env) (n : Conn) :
-    (outcomeC Quirks.repaired c e n).escaped = [] := by
-  unfold outcomeC
-  rw [outcome_eq]
-  generalize hct : ctOf Quirks.repaired c e = ct
-  cases ct with
   | wedged =>
     have := ((contactDecision_wedged_iff _ _ _ _ _).mp hct).2.2.2.1
     cases this
   | proceedClear => simp [render, sessDecision, Contact.escapes, Sess.escapes]
-  | close a => simp [render, sessDecision, Quirks.repaired, Contact.escapes, Sess.escapes]
+  | close a => simp [render, sessDecision, Quirks.current, Contact.escapes, Sess.escapes]
   | proceedTls =>
     cases hpp : e.pipelined
-    · obtain ⟨hE, hT⟩ := sessDecision_tls Quirks.repaired c e (peerIdOf c n)
+    · obtain ⟨hE, hT⟩ := sessDecision_tls Quirks.current c e (peerIdOf c n)
         (fun h => by rw [hpp] at h; cases h) (fun h => by cases h)
-        (sess_hc Quirks.repaired c n (fun h => by cases h))
-      rcases authDecision_cases Quirks.repaired.uncheckedDnsCounts (peerIdOf c n).ip (peerIdOf c n).dns
+        (sess_hc Quirks.current c n (fun h => by cases h))
+      rcases authDecision_cases Quirks.current.uncheckedDnsCounts (peerIdOf c n).ip (peerIdOf c n).dns
           (peerIdOf c n).node (peerIdOf c n).dnsKnown c.requireHost c.requireNode with ha | ha
       · rw [hE ha]; simp [render, Contact.escapes, Sess.escapes]
       · rw [hT ha]; simp [render, Contact.escapes, Sess.escapes]
-    · rw [sess_tls_notDelivered Quirks.repaired c e _ hpp rfl]
+    · rw [sess_tls_notDelivered Quirks.current c e _ hpp rfl]
       simp [render, Contact.escapes, Sess.escapes]
+
+/-- failed handshake: closed, nothing escapes; SESS_INIT pipelined behind a policy failure: closed,
+    never handled (formerly `AttributeError` after close – regression instance) -/
+example :
+    (outcomeC Quirks.current d27Cfg { d27Env with handshake := .sslError } d27Conn).contact = .close true ∧
+    (outcomeC Quirks.current ⟨true, true, some true, false, false⟩ ⟨0, .ok, true, false⟩ d27Conn).sess = .notDelivered ∧
+    (outcomeC { Quirks.current with handlesAfterClose := true } ⟨true, true, some true, false, false⟩
+      ⟨0, .ok, true, false⟩ d27Conn).escaped = [.attributeError] := by decide
 
 /-! ## The whole property against the independent specification -/
 
@@ -896,9 +830,8 @@ private theorem termReasons_mem (c : Cfg) (e : Env) (p : PeerId) (ct : Contact) 
     simp_all [render, termReasonsOf, Contact.isTls, Contact.proceeds, Contact.closedBeforeFlush,
       Sess.delivered, Sess.termOut]
 
-/-- **C15 against `C15spec.Policy`, for any quirk set**, outside the regions its quirks open:
-    every configuration, every flags octet, every handshake result, every certificate. -/
-theorem C15_policy (q : Quirks) (c : Cfg) (e : Env) (n : Conn) (hname : n.peerName ≠ "")
+/-- `C15spec.Policy` for any quirk set, outside the regions its (former) quirks open. -/
+private theorem policy_of (q : Quirks) (c : Cfg) (e : Env) (n : Conn) (hname : n.peerName ≠ "")
     (hD13 : q.uncheckedDnsCounts = true → d13Region c n = false)
     (hPlain : q.carriesPlaintext = true → e.pipelined = false)
     (hNative : q.callsNative = true → e.nativeMatch = true)
@@ -1000,19 +933,14 @@ theorem C15_policy (q : Quirks) (c : Cfg) (e : Env) (n : Conn) (hname : n.peerNa
     obtain ⟨hct, hss⟩ := termReasons_mem _ _ _ _ _ _ hr'
     exact (sessDecision_terminated q c e _ _ r hss).2
 
-/-- **C15 for the code as it is**, outside the four regions in which it fails: D13 (unverifiable
-    DNS-ID with `require_host_authn`), SESS_INIT pipelined behind the contact header, interpreter
-    without `ssl.match_hostname` (D27), peer without certificate. -/
-theorem C15_policy_partial (c : Cfg) (e : Env) (n : Conn) (hname : n.peerName ≠ "")
-    (hD13 : d13Region c n = false) (hpl : e.pipelined = false) (hnat : e.nativeMatch = true)
-    (hcert : n.cert ≠ none) :
+/-- **C15 at full strength against the independent specification `C15spec.Policy`**: every
+    configuration (side, `tls_enable`, `require_tls`, `require_host_authn`, `require_node_authn`), every
+    flags octet of the peer, every handshake result, SESS_INIT pipelined or not, every certificate
+    (arbitrary SAN list, no SAN extension, no certificate), every peer address / name / node ID.
+    (`peerName ≠ ""`: an empty host name cannot be a DNS-ID reference.) -/
+theorem C15_policy (c : Cfg) (e : Env) (n : Conn) (hname : n.peerName ≠ "") :
     Policy (situation c e n) (observe (outcomeC Quirks.current c e n)) :=
-  C15_policy Quirks.current c e n hname (fun _ => hD13) (fun _ => hpl) (fun _ => hnat) (fun _ => hcert)
-
-/-- **C15 at full strength for the repaired decision logic**: all configurations, all inputs. -/
-theorem C15_policy_repaired (c : Cfg) (e : Env) (n : Conn) (hname : n.peerName ≠ "") :
-    Policy (situation c e n) (observe (outcomeC Quirks.repaired c e n)) :=
-  C15_policy Quirks.repaired c e n hname (fun h => by cases h) (fun h => by cases h) (fun h => by cases h)
+  policy_of Quirks.current c e n hname (fun h => by cases h) (fun h => by cases h) (fun h => by cases h)
     (fun h => by cases h)
 
 /-- non-vacuity: a TLS session with a many-entry certificate is established and reported … -/
